@@ -316,6 +316,9 @@ def _mk_tile_compressor(
 
     tile_shape = meta.chunks
     encoder = TIFF.COMPRESSORS[meta.compression]
+    if meta.compression == 1:
+        # COMPRESSION.NONE "encoder" hands back the ndarray, we need bytes
+        encoder = None
 
     predictor = None
     if meta.predictor != 1:
